@@ -587,6 +587,38 @@ def c09_reuse(d, msg, rng, enc):
                             destination=x.destination, priority=x.priority)
         y.fields = list(x.fields)
         return y
+    # value edited IN PLACE between two encodings, fields given by value (raw value None): LOOKUP by name, DATE, TIME
+    byval = [k for k, g in enumerate(d["Fields"]) if "Match" not in g and (
+        (g["FieldType"] == "LOOKUP" and "LookupEnumeration" in g) or g["FieldType"] in ("DATE", "TIME"))]
+    if byval:
+        k = rng.choice(byval)
+        g = d["Fields"][k]
+        a = copy.deepcopy(msg)
+        if g["FieldType"] == "LOOKUP":
+            table = next((t for t in PL.db().get("LookupEnumerations", []) if t.get("Name") == g["LookupEnumeration"]), None)
+            seen_v, names = set(), []
+            for e in (table or {}).get("EnumValues", []):
+                if e["Value"] < (1 << g["BitLength"]) and e["Value"] not in seen_v and [x["Name"] for x in table["EnumValues"]].count(e["Name"]) == 1:
+                    seen_v.add(e["Value"])
+                    names.append(e["Name"])
+            vals = rng.sample(names, 2) if len(names) >= 2 else None
+        elif g["FieldType"] == "DATE":
+            vals = [datetime.date(2024, 2, 29), datetime.date(2025, 1, 1)]
+        else:
+            vals = [datetime.time(1, 2, 3), datetime.time(23, 59, 58)]
+        if vals:
+            a.fields[k].value, a.fields[k].raw_value = vals[0], None
+            p1 = pay(a)
+            if p1[0] == "ok":
+                a.fields[k].value = vals[1]
+                b = copy.deepcopy(msg)
+                b.fields[k].value, b.fields[k].raw_value = vals[1], None
+                p2, pf = pay(a), pay(b)
+                if p2 != pf:
+                    return {"kind": "reuse", "pgn": d["PGN"], "id": d["Id"], "key": "encode:stale-after-value-edit",
+                            "what": f"PGN {d['PGN']} {d['Id']}: field {g['Id']} given by value {vals[0]!r}, encoded, then set to "
+                                    f"{vals[1]!r} on the same object: encodes to {p2[1].hex() if p2[0] == 'ok' else p2}, a message "
+                                    f"built with {vals[1]!r} encodes to {pf[1].hex() if pf[0] == 'ok' else pf}"}
     m = copy.deepcopy(msg)
     first = pay(m)
     if first[0] != "ok":
